@@ -11,6 +11,9 @@ CLAIMED = {
  "C13": ("TLA+ state machine of client/server text synchronisation (DocSync.tla) model-checked by TLC (invariant InSync); every TLC transition replayed into the real Vfs through the hook and TLC-simulated histories replayed black-box into the real server binary",
          "TLC checks server = StripCR(client) for every document up to the bound x every valid (start,end) position pair x every short replacement (single edits exhaustive, two changes per notification on a smaller bound) and prints one case per transition; each is applied to glas' Vfs exactly as on_did_change does and the stored text compared after every content change. TLC-simulated 10-notification histories are additionally played against the real server process (disk content equal to / different from the opened text) and the text read back through glas/syntaxTree after every notification.",
          "hook-level replay mirrors the loop of on_did_change (from_range + change_file_content); the black-box sessions cover the real loop. Read-back through glas/syntaxTree relies on C01.", "4 C13, 3.6"),
+ "C19": ("TLA+ specification of the LSP relative token encoding and its decoder (SemTokens.tla) model-checked by TLC; every enumerated (document, highlight list) replayed into the real encoder through the hook",
+         "TLC checks Decode(Encode(P)) = P, strict increase, non-overlap and in-line bounds on all documents up to the bound with multi-byte characters before/inside highlighted ranges x all sorted single-line highlight lists x tags, and emits for each the array a conforming encoder must produce; glas' to_semantic_tokens is run on each and compared verbatim (exhaustive within the bound).",
+         "covers the encoder for arbitrary highlight lists; which identifiers the analysis highlights on real programs is checked with the scoping generator (added when GleamGen lands)", "4 C19, 3.6"),
 }
 NOT_YET = "check not built yet in this revision of /verif (work in progress; see DESIGN.md section 8)"
 
